@@ -21,6 +21,14 @@ BASELINE = ("cd /repo && env -u MIASM_VERIF /venv/bin/python -m pytest -ra -q -p
             "--timeout=900 --continue-on-collection-errors test/arch/mep")
 
 
+def _registered():
+    path = os.path.join(ROOT, "vf", "registered.txt")
+    return set(l.split()[0] for l in open(path) if l.strip() and not l.startswith("#"))
+
+
+REGISTERED = _registered()
+
+
 def main():
     props = [json.loads(l) for l in open(os.path.join(ROOT, "properties.jsonl"))]
     ids = [p["id"] for p in props]
@@ -28,8 +36,12 @@ def main():
     have = set()
     for path in sorted(glob.glob(os.path.join(ROOT, "vf", "checks", "c[0-9]*_*.py"))):
         name = os.path.basename(path)[:-3]
+        if name.split("_")[0].upper() not in REGISTERED:
+            continue
         mod = importlib.import_module("vf.checks." + name)
         c = mod.CHECK
+        if c["id"] not in REGISTERED:
+            continue
         if c.get("disabled"):
             NOT_APPLICABLE.setdefault(c["id"], c["disabled"])
             continue
